@@ -13,7 +13,7 @@ From Coq Require Import String ZArith QArith Bool Arith List Permutation.
 From GT Require Import Base.UTree Spec.Obs Spec.GenShape Spec.Counting Model.Reroot Model.Rand2 Model.TreeGen
      Proofs.TreeGenNames Proofs.TreeGenMain Proofs.TreeGenLens Proofs.TreeGenCat Proofs.TreeGenBal
      Proofs.TreeGenBal2 Proofs.TreeGenTopo Proofs.TreeGenTopo2
-     Model.Index Proofs.IndexBase Proofs.IndexTree Proofs.TreeGenIndex Proofs.TreeGenPlanted Proofs.Rand2Float Proofs.StretchFive.
+     Model.Index Proofs.IndexBase Proofs.IndexTree Proofs.TreeGenIndex Proofs.TreeGenPlanted Proofs.Rand2Float Proofs.StretchFive Proofs.TreeGenComplete.
 Import ListNotations.
 Local Close Scope Q_scope.
 
@@ -338,3 +338,23 @@ Example C16_example_topologies :
   (exists ts, all_topologies 4 true ["a"; "b"; "c"; "d"]%string = Ok ts /\ length ts = 15).
 Proof. split; eexists; vm_compute; split; reflexivity. Qed.
 Print Assumptions C16_example_topologies.
+
+(** * completeness of the enumerator, against the tree type itself: EVERY well-formed binary tree on
+    the given (pairwise distinct) names has the key of an enumerated tree -- with NoDup of the keys,
+    every labelled binary topology occurs exactly once; the double-factorial count is then a
+    consequence, not a presupposition *)
+Theorem C16_topologies_unrooted_complete :
+  forall n names ts t, 3 <= n -> length names = n -> NoDup names ->
+    all_topologies n false names = Ok ts ->
+    wf t = true -> binary false t = true -> Permutation (leaves t) names ->
+    In (topo_key false t) (map (topo_key false) ts).
+Proof. exact all_topologies_unrooted_complete. Qed.
+Print Assumptions C16_topologies_unrooted_complete.
+
+Theorem C16_topologies_rooted_complete :
+  forall n names ts t, 2 <= n -> length names = n -> NoDup names ->
+    all_topologies n true names = Ok ts ->
+    wf t = true -> binary true t = true -> Permutation (leaves t) names ->
+    In (topo_key true t) (map (topo_key true) ts).
+Proof. exact all_topologies_rooted_complete. Qed.
+Print Assumptions C16_topologies_rooted_complete.
